@@ -24,6 +24,9 @@ inductive Kind where
   | func (sig : Nat)
   | inst (id : Option Str) (exports : Exports)
   | type (id : Option Str) (exports : Exports)
+  /-- an interface *type* (what a local `interface` declaration denotes); importing it imports
+      an instance of it -/
+  | ifaceTy (id : Option Str) (exports : Exports)
 /-- ordered name → kind list -/
 inductive Exports where
   | nil
@@ -35,6 +38,7 @@ def Kind.beq : Kind → Kind → Bool
   | .func a, .func b => a == b
   | .inst i a, .inst j b => i == j && Exports.beq a b
   | .type i a, .type j b => i == j && Exports.beq a b
+  | .ifaceTy i a, .ifaceTy j b => i == j && Exports.beq a b
   | _, _ => false
 def Exports.beq : Exports → Exports → Bool
   | .nil, .nil => true
@@ -72,6 +76,11 @@ def Kind.instExports : Kind → Option Exports
   | .inst _ e => some e
   | _ => none
 
+/-- `ItemKind::promote`: an interface type becomes an instance of it -/
+def Kind.promote : Kind → Kind
+  | .ifaceTy id e => .inst id e
+  | k => k
+
 /-- the interface path associated with an instance kind -/
 def Kind.instId : Kind → Option Str
   | .inst id _ => id
@@ -89,6 +98,7 @@ def Kind.sub (a : Kind) : Kind → Bool
     | .inst _ ea => Exports.subAll ea eb
     | _ => false
   | .type _ _ => false
+  | .ifaceTy _ _ => false
 def Exports.subAll (ea : Exports) : Exports → Bool
   | .nil => true
   | .cons n k rest =>
@@ -162,6 +172,8 @@ inductive ImportTy where
   | func (sig : Nat)
   /-- `interface { name: func(…); … }` -/
   | iface (funcs : List (Str × Nat))
+  /-- a local name (an interface declared in the document, or any other item) -/
+  | ident (id : Str)
 
 inductive ExportOpt where
   | none
@@ -172,11 +184,19 @@ inductive Stmt where
   | imp (id : Str) (as : Option Str) (ty : ImportTy)
   | bind (id : Str) (e : Expr)
   | exp (e : Expr) (opt : ExportOpt)
+  /-- `interface id { name: func(…); … }` (a type statement) -/
+  | iface (id : Str) (funcs : List (Str × Nat))
 
 structure Program where
   /-- name of the package being defined (`package <name>;`) -/
   self : Str
   stmts : List Stmt
+
+/-- the kind of an interface of functions -/
+def funcsKind (fs : List (Str × Nat)) : Exports := Exports.ofList (fs.map fun (n, s) => (n, Kind.func s))
+
+/-- `AstResolver::id`: the identifier of a type declared in the package being defined -/
+def declId (self : Str) (name : Str) : Str := self ++ '/' :: name
 
 /-- the string of a package path as written in the source -/
 def pathString (pkg : Str) (ver : Option Str) (segs : List Str) : Str :=
@@ -192,6 +212,8 @@ inductive Prov where
   | exportOf (inst : Prov) (name : Str)
   /-- the `k`-th instantiation (in evaluation order, from 0) -/
   | inst (k : Nat)
+  /-- a type declared in the document -/
+  | defn (name : Str)
 deriving DecidableEq, Repr
 
 inductive InstOp where
@@ -218,6 +240,8 @@ inductive Diag where
   | exportRequiresAs
   | spreadExportNoEffect
   | importConflict (n : Str)
+  | exportConflict (n : Str)
+  | declarationConflict (n : Str)
 deriving DecidableEq, Repr
 
 structure Instantiation where
@@ -254,6 +278,7 @@ def Kind.render : Kind → Str
   | .func s => "func".toList ++ natStr s
   | .inst _ e => "inst{".toList ++ joinWith ",".toList (sortBy id (Exports.renderEntries e)) ++ "}".toList
   | .type _ _ => "type".toList
+  | .ifaceTy _ _ => "type".toList
 /-- `name:kind` per entry (sorted by the caller: the order of an instance type's exports is not compared) -/
 def Exports.renderEntries : Exports → List Str
   | .nil => []
@@ -264,6 +289,7 @@ def Prov.render : Prov → Str
   | .imp n => "import(".toList ++ n ++ ")".toList
   | .exportOf p n => p.render ++ "[".toList ++ n ++ "]".toList
   | .inst k => "#".toList ++ natStr k
+  | .defn _ => "type".toList
 
 def optVer : Option Str → Str
   | none => []
@@ -301,6 +327,8 @@ def Diag.render : Diag → Str
   | .exportRequiresAs => "ExportRequiresAs".toList
   | .spreadExportNoEffect => "SpreadExportNoEffect".toList
   | .importConflict n => "ImportConflict ".toList ++ n
+  | .exportConflict n => "ExportConflict ".toList ++ n
+  | .declarationConflict n => "DeclarationConflict ".toList ++ n
 
 def renderResult : Except Diag Composition → Str
   | .ok c => "ok ".toList ++ c.render
